@@ -325,7 +325,7 @@ PROPS = {
     'C05': dict(
         verus=[],
         kani=COMPARE + [APPLY] + INSTANCE_BMCA[:2],
-        assumptions=['the composition over the loops of PtpInstanceState::bmca (Ebest = max over ports, per-port decision, application) is a paper step over the three machine-checked contracts compare / decide / apply; order independence follows from antisymmetry + transitivity on consistent data sets',
+        assumptions=['the composition over the loops of PtpInstanceState::bmca (Erbest of every port recomputed once, one Ebest = one of the candidates of the ports handed to every decision, each decision applied to its own port, every port aged once) is machine-checked for an instance with two ports against recording stubs of the callees (c05_instance_bmca_visits_every_port); for more ports the per-port loops are uniform and the extension is a paper step; that Ebest is the *maximum* is c05_find_best_is_a_maximum (two candidates) + transitivity; order independence follows from antisymmetry + transitivity on consistent data sets',
                      'consistency precondition for transitivity: equal grandmasterIdentity => equal grandmaster attributes, same receiver clock, sender != receiver (without it the IEEE comparison itself is cyclic)'] + PORT_ASSUME[:1],
     ),
     'C06': dict(
